@@ -212,7 +212,8 @@ pub fn cmd_probe(a: &Args) -> i32 {
                 viol.push("spawn_with_mailbox_capacity(_, 0) did not reject capacity 0".into());
             }
             // explicit capacities are hard bounds too
-            for cap in [1usize, 2, 7, 33, 50] {
+            // ... of every size: a capacity in the tens of thousands is as hard a bound as a capacity of 1
+            for cap in [1usize, 2, 7, 33, 50, 70_001] {
                 let gate = Arc::new(tokio::sync::Semaphore::new(0));
                 let got = rt.block_on(async {
                     let (a, jh) = rsactor::spawn_with_mailbox_capacity::<G>(gate.clone(), cap);
@@ -221,7 +222,7 @@ pub fn cmd_probe(a: &Args) -> i32 {
                     let mut acc = 0;
                     while let Ok(Ok(())) = tokio::time::timeout(Duration::from_millis(60), a.tell(Fill)).await {
                         acc += 1;
-                        if acc > 1000 {
+                        if acc > cap + 1000 {
                             break;
                         }
                     }
